@@ -38,6 +38,10 @@ def fileMatches (h : Bytes) (file : Option Bytes) : Bool :=
   | none => true
   | some b => sha b == h
 
+/-- clause 1 when the CLI cannot read the manifest: there is no content hash any bytes could be shown to match, so no
+file may be written at all -/
+def nothingUnverifiable (hashKnown : Bool) (file : Option Bytes) : Bool := hashKnown || file.isNone
+
 /-- clause 2: a path returning other bytes fails *and the next is tried*: the command may only end in failure
 (no file, non-zero exit) if no permitted, reachable endpoint offered the matching bytes -/
 def noHonestSkipped (mode : Nat) (h : Bytes) (offers : List Offer) (file : Option Bytes) (exit : Nat) : Bool :=
@@ -51,8 +55,14 @@ def exitConsistent (mode : Nat) (offers : List Offer) (file : Option Bytes) (exi
   if exit == 0 then file.isSome || offers.any (fun o => allowed mode o.kind && o.reachable && o.okWithoutPayload)
   else file.isNone
 
-def judge (mode : Nat) (h : Bytes) (offers : List Offer) (file : Option Bytes) (exit : Nat) : String :=
-  if !fileMatches sha h file then "viol:wrote-mismatch:the output file does not hash to the manifest's chunk_hash"
+/-- `hashKnown`: the manifest is decodable by the CLI.  `offers` lists, for clause 2, only what the property obliges the
+CLI to use: the driver marks an endpoint unreachable when the manifest's own state rules the path out (expired or
+anonymous manifest on a transport path, key shares that cannot be recombined). -/
+def judge (hashKnown : Bool) (mode : Nat) (h : Bytes) (offers : List Offer) (file : Option Bytes) (exit : Nat) : String :=
+  if !nothingUnverifiable hashKnown file then "viol:wrote-unverifiable:a file was written although the manifest (and so its chunk_hash) could not be decoded"
+  else if !hashKnown then (if exit == 0 && !(offers.any fun o => allowed mode o.kind && o.reachable && o.okWithoutPayload)
+    then "viol:exit-code:exit code and output file disagree" else "ok")
+  else if !fileMatches sha h file then "viol:wrote-mismatch:the output file does not hash to the manifest's chunk_hash"
   else if !noHonestSkipped sha mode h offers file exit then "viol:honest-skipped:an endpoint offering the matching bytes was never used"
   else if !exitConsistent mode offers file exit then "viol:exit-code:exit code and output file disagree"
   else "ok"
